@@ -1306,7 +1306,8 @@ type Handler struct {
 	items                               []Item
 }
 
-var handlerModules = []string{"vault", "locker", "lend", "liquidity", "auctionsV2", "esm", "liquidation", "liquidationsV2", "auction"}
+var handlerModules = []string{"vault", "locker", "lend", "liquidity", "auctionsV2", "esm", "liquidation", "liquidationsV2", "auction",
+	"asset", "collector", "rewards", "tokenmint"}
 
 func extractHandlers() []Handler {
 	var out []Handler
@@ -2009,6 +2010,7 @@ func main() {
 	sw := extractSweeps()
 	pcs := extractPriceCalls()
 	trs := extractTwaReads()
+	eps, pts, pb, props, ibc := extractEntryPoints(hs, ws)
 
 	var b strings.Builder
 	b.WriteString("/-! GENERATED by extract/guards from the comdex source tree — do not edit; regenerated on every run.\n")
@@ -2113,7 +2115,9 @@ func main() {
 		}
 		fmt.Fprintf(&b, "  { file := %s, fn := %s, var := %s, asset := %s, status := %s, tested := %s, foundChecked := %s, line := %d }%s\n", q(c.file), q(c.fn), q(c.v), q(c.asset), q(c.status), q(c.tested), bl(c.foundChecked), c.line, sep)
 	}
-	b.WriteString("]\n\nend Comdex.Gen.Guards\n")
+	b.WriteString("]\n\n")
+	writeEntryTables(&b, eps, pts, pb, props, ibc)
+	b.WriteString("end Comdex.Gen.Guards\n")
 	if *out == "" {
 		fmt.Print(b.String())
 		return
